@@ -21,7 +21,7 @@ var hostileQuoted = []string{
 	`"x', 'y"`, `", 'z"`, `"a', 'b', 'c"`, `"x'' OR ''1''=''1"`, `"x''y"`, `"''"`, `"C:\tmp\"`, `"\"`, `"a\\"`,
 	`""`, `"*"`, `"a b"`, `"a*b"`, `"a?b"`, `"/re/"`, `"x:y"`, `"AND"`, `"a'b"`, `"a''b"`, `"a\b"`, `"a\\b"`, `"x,y"`, `"a;b--"`, `"/*x*/"`, `"$$"`, `"E'x'"`, `"5"`, `"5.0"`, `"NaN"`,
 	`"C:\temp\new"`, `"tab\there"`, `"a\x41b"`, `"\u00e9"`, `"\101"`, "\"a\x7fb\"", "\"a\x01b\"", "\"a\vb\"", "\"a\x1bb\"", `"007"`, `"9"`, `"1.5"`, `"+3"`, `"-0"`, `"1e3"`,
-	`"/"`, `"//"`, `"?"`, `"\"`, `"ÿ"`, `"a  b"`, `"a` + "\t" + `b c"`, `"日本*"`,
+	"\"caf\ufffd\"", "\"\ufffd\"", `"/"`, `"//"`, `"?"`, `"\"`, `"ÿ"`, `"a  b"`, `"a` + "\t" + `b c"`, `"日本*"`,
 	`"é日"`, `"a` + "\n" + `b"`, `"a` + "\t" + `b"`, `"%!"`, `"a` + "\x00" + `b"`, `"a` + "\xff" + `b"`, `"(b|d)"`, `"a_b"`, `"a%b"`, `'single'`, `'a b'`, `"it's"`,
 	`"` + strings.Repeat("n", 63) + `"`, `"` + strings.Repeat("n", 64) + `"`, `"` + strings.Repeat("é", 40) + `"`,
 }
